@@ -9,13 +9,14 @@ import (
 // Object streams store multiple objects in a single compressed stream, providing
 // better compression than storing objects individually.
 type ObjectStream struct {
-	stream  *Stream              // Underlying stream object
-	n       int                  // Number of objects in stream
-	first   int                  // Byte offset of first object in decoded data
-	extends *IndirectRef         // Optional reference to another ObjStm this one extends
-	objects map[int]Object       // Cached parsed objects (index -> object)
-	offsets []objectStreamOffset // Parsed offset pairs from header
-	decoded []byte               // Decoded stream data (cached)
+	stream    *Stream              // Underlying stream object
+	n         int                  // Number of objects in stream
+	first     int                  // Byte offset of first object in decoded data
+	extends   *IndirectRef         // Optional reference to another ObjStm this one extends
+	objects   map[int]Object       // Cached parsed objects (index -> object)
+	offsets   []objectStreamOffset // Parsed offset pairs from header
+	decoded   []byte               // Decoded stream data (cached)
+	headerErr error                // Why the header could not be parsed (nil if it could)
 }
 
 // objectStreamOffset pairs an object number with its byte offset within the decoded data.
@@ -110,7 +111,11 @@ func (os *ObjectStream) Extends() *IndirectRef {
 // decode decodes the stream data and parses the header. Called lazily on first access.
 func (os *ObjectStream) decode() error {
 	if os.decoded != nil {
-		return nil // Already decoded
+		// Already decoded. If the header did not parse, every later access fails
+		// the same way: the stream is cached by the reader, and answering the
+		// second request for one of its objects from the pairs that happened to
+		// parse made the result depend on which object had been asked for first.
+		return os.headerErr
 	}
 
 	// Decode the stream
@@ -123,7 +128,9 @@ func (os *ObjectStream) decode() error {
 	// Parse the header: N pairs of (objNum offset)
 	// The header is plain text integers separated by whitespace
 	if err := os.parseHeader(); err != nil {
-		return fmt.Errorf("failed to parse object stream header: %w", err)
+		os.offsets = nil
+		os.headerErr = fmt.Errorf("failed to parse object stream header: %w", err)
+		return os.headerErr
 	}
 
 	return nil
